@@ -504,8 +504,32 @@ def value_alternatives(body, operand, depth=6, _seen=None):
     the value used under a condition sees the same alternatives whether the branch encloses the use or only the
     definition."""
     _seen = _seen or set()
-    if operand.get('k') not in ('move', 'copy') or operand['place']['p']:
+    if operand.get('k') not in ('move', 'copy'):
         return None
+    pj = operand['place']['p']
+    if pj:
+        # `(x as V).0` where every definition of x builds an aggregate: the payloads of the V-built ones
+        if not (len(pj) == 2 and pj[0].get('k') == 'downcast' and pj[1].get('k') == 'field'):
+            return None
+        bl = operand['place']['l']
+        bds = body.defs().get(bl, [])
+        if bl in _seen or depth < 0 or not bds or 1 <= bl <= body.raw.get('arg_count', 0):
+            return None
+        out = []
+        for df in bds:
+            if not (df[0] == 'assign' and df[3]['k'] == 'aggr' and df[3].get('variant')):
+                return None
+            if df[3]['variant'] != pj[0].get('variant'):
+                continue
+            idx = pj[1].get('idx', 0)
+            if idx >= len(df[3]['ops']):
+                return None
+            sub = value_alternatives(body, df[3]['ops'][idx], depth - 1, _seen | {bl})
+            if sub is not None:
+                out.extend(sub)
+            else:
+                out.append((body.op_expr(df[3]['ops'][idx]), df[1]))
+        return out or None
     l = operand['place']['l']
     if l in _seen or depth < 0:
         return None
